@@ -63,6 +63,9 @@ CHECKS = {
     "C17": (MC, "4.C17", "explicit-state breadth-first search over ALL save histories up to the stated depth (3 models x 2 storage modes x 2 harness-owned directory-name answers) on a real directory tree with a stubbed clock, invariant after every transition; exhaustive round-trip lattice for process models, curves, permeance functions and conditions",
             "No save in any explored history writes into or alters an earlier directory; each creates exactly one directory that loads back equal or raises leaving nothing behind (forced name collisions); load never writes; every round trip agrees to 1e-9 with compositions in mass basis.",
             "hash(datetime.now()) stubbed by module-attribute assignment; built-in mixtures only"),
+    "C20": (MC, "4.C20", "explicit-state breadth-first search over call histories on the real code: ~31 modelling operations sharing one set of argument objects; canonical hashing of the whole world (arguments, Mixtures/Components singletons, class defaults, module data); depth-1 closure + ordered pairs (+ triples); fresh-interpreter differential oracle for every operation",
+            "Every operation of the menu is a self-loop on the canonical world (hence histories of any length leave the shared objects and built-ins unchanged), and every result - also as 2nd/3rd call of a history - is bit-identical to the same call made first in a fresh interpreter.",
+            "state outside the canonical form is covered only through the pair/triple histories and the fresh-interpreter comparison"),
 }
 def main():
     checks = []
@@ -97,7 +100,7 @@ def main():
             "kind_free_text": "hand-written bounded exhaustive explorer for Python: finite-lattice enumerator (E1), trace conformance against a reference stepper (E2), explicit-state BFS over call histories with canonical state hashing (E3), lasso detector for the fixed-point iteration (E4)",
         }],
         "checks": checks,
-        "not_applicable": [{"property_id": p, "reason": "not claimed yet: its check is still under construction in this session (see DESIGN.md section 4 for the planned exploration)"} for p in ALL if p not in CHECKS],
+        "not_applicable": [{"property_id": p, "reason": "not claimed: no check built"} for p in ALL if p not in CHECKS],
         "notes": "All checks import /repo's working tree directly (PYTHONPATH), nothing is built or cached. Genuine defects found: see known_findings.json and DESIGN.md section 5.",
     }
     with open(os.path.join(HERE, "MANIFEST.json"), "w") as f:
